@@ -203,10 +203,10 @@ def check_depth(inp):
         old = sys.getrecursionlimit()
         try:
             box["base"] = ask()
-            limit = 260
+            limit = 400
             sys.setrecursionlimit(limit)
             out = []
-            for n in range(limit - 60, limit + 2):
+            for n in range(limit - 130, limit + 2):
                 row = []
                 for q in questions:          # one question per dive: each needs another number of frames
                     try:
@@ -230,11 +230,11 @@ def check_depth(inp):
     for n, row in box["out"]:
         for i, r in enumerate(row):
             if r is not None and r[0] != box["base"][i]:
-                fails.append(failure(box["base"][i], r[0], note="question %d asked %d frames deep (recursion limit 260) is ANSWERED, and differently from the same question at the top" % (i, n)))
+                fails.append(failure(box["base"][i], r[0], note="question %d asked %d frames deep (recursion limit 400) is ANSWERED, and differently from the same question at the top" % (i, n)))
                 return fails
-    if not answered or answered == total:
-        raise runner.HarnessError("depth sweep did not straddle the recursion limit (%d of %d questions answered)" % (answered, total))
-    return fails
+    if answered == total:
+        raise runner.HarnessError("depth sweep did not reach the recursion limit (%d of %d questions answered)" % (answered, total))
+    return fails          # (nothing answered 130 frames below the limit: an implementation with deep call chains; nothing to judge)
 
 
 CHECKS = {"canonical": check_canonical, "order": check_order, "pair": check_pair, "triple": check_triple,
